@@ -42,6 +42,10 @@ def run(chk):
                             return "add%r changed the unaddressed cell %r" % (tuple(op), key)
                     if (op[0], op[1]) not in nc:
                         return "add%r succeeded but the addressed cell is missing" % (tuple(op),)
+                    if kind == "rpms" and isinstance(op[2], str) and isinstance(op[5], str):
+                        own = (op[2][:-4] if op[2].endswith(".rpm") else op[2]).rsplit(".", 1)[-1]
+                        if (own in ("src", "nosrc")) != (op[5] == "source"):
+                            return "add%r succeeded although the category %r disagrees with the RPM's own arch %r" % (tuple(op), op[5], own)
                     if kind == "rpms":
                         hit = [e for sr in new[op[0]][op[1]].values() for e in sr.values()
                                if e["path"] == op[3] and e["category"] == op[5] and e["sigkey"] == (op[4].lower() if op[4] is not None else None)]
@@ -55,9 +59,18 @@ def run(chk):
         def classify(c, res, v):
             return None
 
-        core.differential(chk, "ops_manifests:" + kind, cases, "ops_" + kind, model_cases=[S.resolve_ops(c, False) for c in cases],
+        _, _, dis = core.differential(chk, "ops_manifests:" + kind, cases, "ops_" + kind, model_cases=[S.resolve_ops(c, False) for c in cases],
                           nontrivial=lambda c, r: sum(1 for x in r if x[0] == "ok") >= 2, oracle=oracle, classify=classify,
                           normalise=lambda r: r)
+        # the property is stated against the reference model of the documented layout: a step on which the mapping differs from
+        # it is a failing input in its own right
+        for d in dis[:3]:
+            step = next((i for i, (x, y) in enumerate(zip(d["impl"], d["model"] or [])) if x != y), None)
+            if step is not None:
+                op = S.resolve_ops(d["case"], False)[step]
+                chk.violation("after add%r the %s mapping differs from the documented layout: %s, reference model: %s" %
+                              (tuple(op), kind, core.canon(d["impl"][step])[:300], core.canon(d["model"][step])[:300]),
+                              d["case"], "ops_manifests:" + kind)
     # dump_for_tree / base path stripping
     dcases = []
     for _ in range(N[chk.tier] // 2):
